@@ -483,6 +483,41 @@ def check_code_object(col, where, cfg, cdg, path_max, opcount=None):
             col.count("nodes_root_dependent")
         if exp_deps:
             col.count("nodes_branch_dependent")
+    # the same queries in other orders, each on a FRESH CDG of the same CFG: an accessor that remembers
+    # answers (or anything else) between queries must not depend on the order in which it is asked.
+    # Orders: branching nodes first (as DynaMOSA asks), and reverse block order.
+    if size <= 120:
+        import pynguin.instrumentation.controlflow as cf
+
+        keys = [k for k in orc.exp_nodes if isinstance(real_nodes.get(k), BasicBlockNode)]
+        branching_keys = {a for (a, _b), labs in orc.exp.items() if any(l is not None for l in labs)}
+        orders = {"branching-first": sorted(keys, key=lambda k: (k not in branching_keys, str(k))),
+                  "reverse": list(reversed(keys))}
+        for oname, order in orders.items():
+            cdg2 = cf.ControlDependenceGraph.compute(cfg)
+            nodes2 = {node_key(n): n for n in cdg2.graph.nodes}
+            for k in order:
+                n = nodes2.get(k)
+                if n is None:
+                    continue
+                col.count("node_queries_reordered")
+                try:
+                    got_root = cdg2.is_control_dependent_on_root(n)
+                    got_deps = {(d.node.index, d.branch_value) for d in cdg2.get_control_dependencies(n)}
+                except Exception as exc:  # noqa: BLE001
+                    viol(f"raises:{type(exc).__name__}", f"reordered:{oname}", f"node {k}: {exc!r}")
+                    break
+                if got_root != orc.root_dependent(k):
+                    viol("root-dependence-wrong", f"query-order:{oname}",
+                         f"asked in order {oname}: is_control_dependent_on_root({k}) = {got_root}, oracle = "
+                         f"{orc.root_dependent(k)}")
+                    break
+                exp_deps = orc.control_dependencies(k)
+                if got_deps != exp_deps and not all(a in collapsed for a, _v in (exp_deps ^ got_deps)):
+                    viol("control-deps-mismatch", f"query-order:{oname}",
+                         f"asked in order {oname}: get_control_dependencies({k}) = {sorted(got_deps)}, oracle = "
+                         f"{sorted(exp_deps)}")
+                    break
     for k in kinds.values():
         col.distinct("node_kinds", k)
     return {"nodes": size, "branching": branching, "ok": ok, "cdg_edges": len(orc.exp)}
